@@ -14,7 +14,7 @@ fn b64j(v: &Value) -> String {
 }
 
 const KINDS: &[&str] = &[
-    "arity-place", "name-type", "name-type-at-element", "name-reserved", "shape", "collision", "digest-twice",
+    "arity-place", "name-type", "name-type-at-element", "name-reserved", "shape", "collision", "digest-twice", "digest-twice-in-arrays",
     "extra-unreferenced-name-type", "extra-unreferenced-reserved", "extra-unreferenced-shape",
     "sd-not-array-payload", "sd-not-array-value", "placeholder-extra-payload", "placeholder-extra-value", "sd-alg",
 ];
@@ -35,7 +35,7 @@ fn sibling_keys(node: &Node, id: usize) -> Option<Vec<(String, bool)>> {
 }
 
 /// all JSON pointers (as key/index vectors) of objects resp. arrays in a value
-fn collect_sites(v: &Value, cur: &mut Vec<String>, objs: &mut Vec<Vec<String>>, arrs: &mut Vec<Vec<String>>) {
+pub(crate) fn collect_sites(v: &Value, cur: &mut Vec<String>, objs: &mut Vec<Vec<String>>, arrs: &mut Vec<Vec<String>>) {
     match v {
         Value::Object(m) => {
             objs.push(cur.clone());
@@ -59,7 +59,7 @@ fn collect_sites(v: &Value, cur: &mut Vec<String>, objs: &mut Vec<Vec<String>>, 
     }
 }
 
-fn at_mut<'a>(v: &'a mut Value, path: &[String]) -> &'a mut Value {
+pub(crate) fn at_mut<'a>(v: &'a mut Value, path: &[String]) -> &'a mut Value {
     let mut cur = v;
     for seg in path {
         cur = match cur {
@@ -131,6 +131,24 @@ fn make_defect(ctx: &mut Ctx, rng: &mut Rng, ic: &IssuedCase, kind: &str, target
             if let Node::Obj(_, extra) = &mut tree {
                 extra.decoys.push(dg);
             }
+        }
+        "digest-twice-in-arrays" => {
+            // the digest of a disclosed array element in a second placeholder (same array or another one of the
+            // payload): once the element is put in place nothing in the restored claims shows the repetition
+            if key.is_some() { return None; }
+            let dg = sd["digest"].as_str()?.to_string();
+            payload_surgery = Some(Box::new(move |p: &mut Value, rng: &mut Rng| {
+                let (mut objs, mut arrs) = (Vec::new(), Vec::new());
+                collect_sites(p, &mut Vec::new(), &mut objs, &mut arrs);
+                let holders: Vec<Vec<String>> = arrs.iter().filter(|site| at_mut(p, site).as_array().map_or(false, |a| a.iter().any(|x| x.get("...") == Some(&json!(dg))))).cloned().collect();
+                // (a placeholder inside a hidden claim is not in the payload: not applicable then)
+                if holders.is_empty() { return None; }
+                let site = if rng.chance(1, 2) { holders[rng.below(holders.len())].clone() } else { arrs[rng.below(arrs.len())].clone() };
+                let a = at_mut(p, &site).as_array_mut().unwrap();
+                let at = rng.below(a.len() + 1);
+                a.insert(at, json!({"...": dg}));
+                Some(json!({"site": site, "digest": dg}))
+            }));
         }
         "sd-not-array-value" => {
             if !v.is_object() { return None; }
@@ -299,7 +317,7 @@ pub fn run_case(ctx: &mut Ctx, case: &Value, every_target: bool) {
 }
 
 pub fn run(ctx: &mut Ctx, replay: Option<&Value>) {
-    ctx.report.rule = "reference-issued unbound tokens (Lean spec issuer) given exactly one defect, validly signed: disclosure of wrong arity for its place / not an array / arity 0,1,4; name not a string / reserved; name equal to a sibling member; a digest embedded twice; _sd not an array and placeholder with extra members (in the payload at a random object/array at any depth, and inside a disclosure's value); unsupported _sd_alg (other types, unregistered names, look-alikes of the registered names: leading zeros / sign / case / blanks / unicode hyphen); target mark random (thorough: every mark); all disclosures presented; Verifier::verify, Holder::verify, Holder::presentation must all return Err and accept the twin; non-trivial = distinct (tree, defect kind, target)".to_string();
+    ctx.report.rule = "reference-issued unbound tokens (Lean spec issuer) given exactly one defect, validly signed: disclosure of wrong arity for its place / not an array / arity 0,1,4; name not a string / reserved; name equal to a sibling member; a digest embedded twice (in `_sd`, or in two array placeholders); _sd not an array and placeholder with extra members (in the payload at a random object/array at any depth, and inside a disclosure's value); unsupported _sd_alg (other types, unregistered names, look-alikes of the registered names: leading zeros / sign / case / blanks / unicode hyphen); target mark random (thorough: every mark); all disclosures presented; Verifier::verify, Holder::verify, Holder::presentation must all return Err and accept the twin; non-trivial = distinct (tree, defect kind, target)".to_string();
     if let Some(case) = replay {
         run_case(ctx, case, false);
         return;
